@@ -123,29 +123,9 @@ fn check_event_order(evs: &[E], tag: &str, op: Operation, cl: &mut Vec<String>, 
     }
 }
 
-pub fn check(pa: &MP, pb: &MP, op: Operation, loc: &mut Local) -> Vec<String> {
-    let mut cl: Vec<String> = vec![];
-    let mut pre_cl: Vec<String> = vec![];
-    let mut pre_loc = Local::default();
-    let sw = match run_sweep_with(pa, pb, op, &mut |pre, _, _| {
-        check_event_order(pre, "before-subdivision", op, &mut pre_cl, &mut pre_loc)
-    }) {
-        Ok(s) => s,
-        Err(_) => {
-            loc.add("panics", 1);
-            return cl;
-        }
-    };
-    loc.transitions += 1;
-    cl.extend(pre_cl);
-    for (k, v) in pre_loc.counters {
-        loc.add(k, v);
-    }
-    // after subdivision the links of pre-events have changed; all events returned by the sweep are judged
-    check_event_order(&sw.post, "after-subdivision", op, &mut cl, loc);
-    let lefts = sw.processed_lefts();
+fn check_segment_order(lefts: &[&E], tag: &str, op: Operation, cl: &mut Vec<String>, loc: &mut Local) {
     let mut add = |s: &str| {
-        let c = format!("C15 segment-order: {s} {}", op_name(op));
+        let c = format!("C15 segment-order {tag}: {s} {}", op_name(op));
         if !cl.contains(&c) {
             cl.push(c);
         }
@@ -176,11 +156,38 @@ pub fn check(pa: &MP, pb: &MP, op: Operation, loc: &mut Local) -> Vec<String> {
             }
         }
     }
-    for s in &lefts {
+    for s in lefts {
         if compare_segments(s, s) != O::Equal {
             add("a segment does not compare Equal to itself");
         }
     }
+}
+
+pub fn check(pa: &MP, pb: &MP, op: Operation, loc: &mut Local) -> Vec<String> {
+    let mut cl: Vec<String> = vec![];
+    let mut pre_cl: Vec<String> = vec![];
+    let mut pre_loc = Local::default();
+    let sw = match run_sweep_with(pa, pb, op, &mut |pre, _, _| {
+        check_event_order(pre, "before-subdivision", op, &mut pre_cl, &mut pre_loc);
+        // the input edges themselves (T-junctions, partial overlaps and proper crossings are still present)
+        let lefts: Vec<&E> = pre.iter().filter(|e| e.is_left()).collect();
+        check_segment_order(&lefts, "before-subdivision", op, &mut pre_cl, &mut pre_loc);
+    }) {
+        Ok(s) => s,
+        Err(_) => {
+            loc.add("panics", 1);
+            return cl;
+        }
+    };
+    loc.transitions += 1;
+    cl.extend(pre_cl);
+    for (k, v) in pre_loc.counters {
+        loc.add(k, v);
+    }
+    // after subdivision the links of pre-events have changed; all events returned by the sweep are judged
+    check_event_order(&sw.post, "after-subdivision", op, &mut cl, loc);
+    let lefts = sw.processed_lefts();
+    check_segment_order(&lefts, "after-subdivision", op, &mut cl, loc);
     cl
 }
 
